@@ -91,6 +91,7 @@ func runC19(c C19Case, cs *kit.CaseStats) (err error) {
 	var prunedBelow uint64
 	prunes := 0
 
+	var served struct{ pruned int }
 	compare := func(where string) error {
 		if node.CM.Tip() != twin.CM.Tip() {
 			return nil // tips may legitimately differ after a refused reorg; compared by the caller
@@ -137,6 +138,46 @@ func runC19(c C19Case, cs *kit.CaseStats) (err error) {
 			b, rb, errb := twin.CM.Headers(idx, 5)
 			if (erra == nil) != (errb == nil) || ra != rb || fmt.Sprint(a) != fmt.Sprint(b) {
 				return fmt.Errorf("%s: Headers(%v) differs between pruned node and twin (%v vs %v)", where, idx, erra, errb)
+			}
+		}
+		// block serving (what a peer that is behind asks for): from every attach
+		// height, and from a history the node knows nothing of (attaches at
+		// genesis). Bodies that are all still held: the twin's answer; a pruned
+		// body among them: an error, never a short or empty success
+		for h := uint64(0); h <= tip.Height+1; h++ {
+			hist := []types.BlockID{types.BlockID(types.HashBytes([]byte("nobody knows this block")))}
+			attach := uint64(0)
+			if h <= tip.Height {
+				idx, _ := node.CM.BestIndex(h)
+				hist = append(hist, idx.ID)
+				attach = h
+			}
+			const maxBlocks = 4
+			ba, ra, erra := node.CM.BlocksForHistory(hist, maxBlocks)
+			bb, rb, errb := twin.CM.BlocksForHistory(hist, maxBlocks)
+			if errb != nil {
+				return fmt.Errorf("%s: INFRA: the unpruned twin fails BlocksForHistory from height %d: %v", where, attach, errb)
+			}
+			needsPruned := false
+			for _, b := range bb {
+				if pruned[b.ID()] {
+					needsPruned = true
+				}
+			}
+			if needsPruned {
+				if erra == nil {
+					return fmt.Errorf("%s: BlocksForHistory attaching at height %d needs a pruned body (the unpruned twin answers with %d blocks) but returned %d blocks, %d remaining and no error", where, attach, len(bb), len(ba), ra)
+				}
+				served.pruned++
+				continue
+			}
+			if erra != nil || ra != rb || len(ba) != len(bb) {
+				return fmt.Errorf("%s: BlocksForHistory attaching at height %d: %d blocks, %d remaining, err=%v on the pruned node; %d blocks, %d remaining on the twin (no pruned body is needed)", where, attach, len(ba), ra, erra, len(bb), rb)
+			}
+			for i := range ba {
+				if ba[i].ID() != bb[i].ID() {
+					return fmt.Errorf("%s: BlocksForHistory attaching at height %d: block %d differs from the twin's", where, attach, i)
+				}
 			}
 		}
 		return nil
@@ -369,6 +410,9 @@ func runC19(c C19Case, cs *kit.CaseStats) (err error) {
 	}
 	if prunes > 0 {
 		cs.Class("pruned")
+	}
+	if served.pruned > 0 {
+		cs.Class("block-serving-request-needing-a-pruned-body-refused")
 	}
 	return node.FullReplayAudit()
 }
